@@ -51,12 +51,28 @@ theorem depth_serBodyFilter_le (f : BodyFilter) : depth (serBodyFilter f) ≤ 2 
     simp [serBodyFilter, serHtmlBodyFilter, depth, depthFields, depth_serOption_str, serVec,
       depthList_str]
 
+theorem hasJunk_serOption_str (o : Option String) : hasJunk (serOption .str o) = false := by
+  cases o <;> simp [serOption, hasJunk]
+
+theorem hasJunkList_str (l : List String) : hasJunkList (l.map .str) = false := by
+  induction l with
+  | nil => simp [hasJunkList]
+  | cons a t ih => simp [hasJunkList, hasJunk, ih]
+
+theorem hasJunk_serBodyFilter (f : BodyFilter) : hasJunk (serBodyFilter f) = false := by
+  cases f with
+  | text t =>
+    simp [serBodyFilter, serTextBodyFilter, hasJunk, hasJunkFields, hasJunk_serOption_str]
+  | html h =>
+    simp [serBodyFilter, serHtmlBodyFilter, hasJunk, hasJunkFields, hasJunk_serOption_str, serVec,
+      hasJunkList_str]
+
 theorem bodyFilter_roundtrip (base : Nat) (hb : base + 2 ≤ recursionLimit) (f : BodyFilter) :
     deBodyFilter base (serBodyFilter f) = some f := by
   have hd := depth_serBodyFilter_le f
   have hlim : ¬ (base + depth (serBodyFilter f) > recursionLimit) := by omega
   unfold deBodyFilter
-  rw [if_neg hlim]
+  simp only [hasJunk_serBodyFilter, Bool.false_or, decide_eq_true_eq, if_neg hlim]
   cases f with
   | text t => simp [serBodyFilter, textBodyFilter_roundtrip]
   | html h => simp [serBodyFilter, deText_serHtml, htmlBodyFilter_roundtrip]
